@@ -22,6 +22,26 @@ func init() {
 			{Name: "R-SDP-FORMAT-GUARDED", Text: "media.Format[0] only under len(media.Format) > 0.", Run: ruleSDPFormatGuarded},
 		},
 	})
+	// rules shared across properties whose statements overlap (each rule decides one structural clause;
+	// the clause is a necessary condition of every property listed here)
+	share := func(prop string, r *RuleDoc) {
+		if p := properties[prop]; p != nil {
+			for _, x := range p.Rules {
+				if x.Name == r.Name {
+					return
+				}
+			}
+			p.Rules = append(p.Rules, r)
+		}
+	}
+	// C01 "each packet at most once ... byte-identical": join atomicity (no duplicate at attach) and untorn frames
+	share("C01", &RuleDoc{Name: "R-JOIN-ATOMIC", Text: "(shared with C02) cache+broadcast and snapshot+register are mutually atomic: a joiner never receives a packet both from the replay and live.", Run: ruleJoinAtomic})
+	share("C01", &RuleDoc{Name: "R-WRITE-LOCKED", Text: "(shared with C13) every write to a consumer's connection holds the session write lock: frames are not spliced with responses.", Run: ruleWriteLocked})
+	// C02 "FLV variant presents the replayed headers ... on copies"
+	share("C02", &RuleDoc{Name: "R-PUBLISHED-IMMUTABLE", Text: "(shared with C01) replayed FLV headers are restamped on per-consumer copies, never in place.", Run: rulePublishedImmutable})
+	share("C02", &RuleDoc{Name: "R-KEYFRAME-CONSTS", Text: "(shared with C08) the caches' key-frame classification constants equal the codec constants and agree with the sibling implementations.", Run: ruleKeyframeConsts})
+	// C04 "dropping begins and ends only at the start of a key frame" depends on the classification constants
+	share("C04", &RuleDoc{Name: "R-KEYFRAME-CONSTS", Text: "(shared with C08) the key-frame classification constants (IDR / IRAP range) agree across caches and packetisers.", Run: ruleKeyframeConsts})
 	// the SDP guard is also part of C07 (malformed SDP contained)
 	if p7 := properties["C07"]; p7 != nil {
 		p7.Rules = append(p7.Rules, &RuleDoc{Name: "R-SDP-FORMAT-GUARDED", Text: "media.Format[0] only under len(media.Format) > 0.", Run: ruleSDPFormatGuarded})
